@@ -99,6 +99,17 @@ func stressMain(args []string) {
 	n, _ := strconv.Atoi(args[3])
 	verifhook.SetMode(verifhook.Chaos)
 	p := syncx.NewLimitPool(maxTokens, func() int { return 0 })
+	if maxTokens > 1<<30 {
+		// a budget this large cannot be exhausted; the first Gets must simply succeed
+		for i := 0; i < g*n; i++ {
+			if _, ok := p.Get(); !ok {
+				fmt.Printf("Get %d failed although maxTokens = %d\n", i+1, maxTokens)
+				return
+			}
+		}
+		fmt.Println("ok")
+		return
+	}
 	var outstanding, high atomic.Int64
 	var wg sync.WaitGroup
 	for i := 0; i < g; i++ {
